@@ -139,3 +139,14 @@ pub fn replay(case: &Value) -> Vec<Violation> {
     with_curve!(case.base.st.curve, G, run_case::<G>(0, &case, &mut st));
     st.violations
 }
+
+pub fn shrink(case: &Value) -> Vec<Value> {
+    let Ok(c) = serde_json::from_value::<Case>(case.clone()) else { return vec![] };
+    let mut out = vec![];
+    for (b, removed) in shrink_session(&c.base) {
+        if let Some(f) = shrink_wfault(&c.fault, removed) {
+            out.push(to_value(&Case { base: b, fault: f }));
+        }
+    }
+    out
+}
